@@ -419,6 +419,23 @@ func guardsAt(b *ssa.BasicBlock) []Guard {
 	return out
 }
 
+// guardsOnEdge returns the conditions fixed when control flows from pred to succ (guards of pred plus pred's own branch).
+func guardsOnEdge(pred, succ *ssa.BasicBlock) []Guard {
+	out := guardsAt(pred)
+	if len(pred.Instrs) == 0 {
+		return out
+	}
+	if ifi, ok := pred.Instrs[len(pred.Instrs)-1].(*ssa.If); ok && pred.Succs[0] != pred.Succs[1] {
+		for s := 0; s < 2; s++ {
+			if pred.Succs[s] == succ {
+				cond, neg := stripNot(ifi.Cond)
+				out = append(out, Guard{Cond: cond, Truth: (s == 0) != neg, If: ifi})
+			}
+		}
+	}
+	return out
+}
+
 // blockReachable reports whether `to` is reachable from `from` (following successors, length>=0).
 func blockReachable(from, to *ssa.BasicBlock) bool {
 	if from == to {
